@@ -9,21 +9,21 @@ From CSL Require Import Base.Prelude Base.Hex Json.Decimal Json.Json Json.Metada
 Local Open Scope N_scope.
 
 Inductive sform := SBigNum | SInt | SBigInt | SHash (n : N) | SAssetName.
-Inductive sval := VNum (z : Z) | VBytes (b : bytes).
+Inductive sval := SVNum (z : Z) | SVBytes (b : bytes).
 
 (* values the Rust types can hold *)
 Definition sval_ok (t : sform) (v : sval) : bool :=
   match t, v with
-  | SBigNum, VNum z => in_range 0 u64_max z
-  | SInt, VNum z => in_range (- two64Z) u64_max z       (* from CBOR: -2^64 .. 2^64-1 *)
-  | SBigInt, VNum _ => true
-  | SHash n, VBytes b => bytes_okb b && (blen b =? n)
-  | SAssetName, VBytes b => bytes_okb b && (blen b <=? 32)
+  | SBigNum, SVNum z => in_range 0 u64_max z
+  | SInt, SVNum z => in_range (- two64Z) u64_max z       (* from CBOR: -2^64 .. 2^64-1 *)
+  | SBigInt, SVNum _ => true
+  | SHash n, SVBytes b => bytes_okb b && (blen b =? n)
+  | SAssetName, SVBytes b => bytes_okb b && (blen b <=? 32)
   | _, _ => false
   end.
 
 Definition sf_ser (t : sform) (v : sval) : json :=
-  match v with VNum z => JStr (print_Z z) | VBytes b => JStr (hex b) end.
+  match v with SVNum z => JStr (print_Z z) | SVBytes b => JStr (hex b) end.
 
 (* [old_int] = Int::from_str before /repo a6f00b9 (C14): x.abs() on the parsed i128 overflowed for i128::MIN in
    builds with overflow checks, and the accepted range -(2^64-1)..2^64-1 left out -2^64, which Int can hold *)
@@ -32,17 +32,17 @@ Definition sf_de_gen (old_int : bool) (t : sform) (j : json) : result sval :=
   | JStr s =>
       match t with
       | SBigNum => match parse_unsigned s with
-                   | Some z => if (z <=? u64_max)%Z then Ok (VNum z) else Err
+                   | Some z => if (z <=? u64_max)%Z then Ok (SVNum z) else Err
                    | None => Err
                    end
       | SInt => match parse_i128 s with
                 | Some x => if old_int && (x =? i128_min)%Z then Panic
-                            else if in_range (if old_int then - u64_max else - two64Z) u64_max x then Ok (VNum x) else Err
+                            else if in_range (if old_int then - u64_max else - two64Z) u64_max x then Ok (SVNum x) else Err
                 | None => Err
                 end
-      | SBigInt => match parse_bigint s with Some z => Ok (VNum z) | None => Err end
-      | SHash n => match unhex s with Some b => if blen b =? n then Ok (VBytes b) else Err | None => Err end
-      | SAssetName => match unhex s with Some b => if blen b <=? 32 then Ok (VBytes b) else Err | None => Err end
+      | SBigInt => match parse_bigint s with Some z => Ok (SVNum z) | None => Err end
+      | SHash n => match unhex s with Some b => if blen b =? n then Ok (SVBytes b) else Err | None => Err end
+      | SAssetName => match unhex s with Some b => if blen b <=? 32 then Ok (SVBytes b) else Err | None => Err end
       end
   | _ => Err
   end.
